@@ -144,6 +144,18 @@ func (p *Program) assignLocs(con *Contract, sig *types.Signature) (locs []assign
 					continue
 				}
 				p.allFields(u.Elem(), st, 0, parts[0], a, &locs)
+			case *types.Interface:
+				// an interface{} parameter: the map[string]interface{} it may hold (the JSON-like value handed in)
+				mt := types.NewMap(types.Typ[types.String], types.NewInterfaceType(nil, nil))
+				h, d := p.mapArrays(mt)
+				name := parts[0]
+				ks, vs := p.sortOf(mt.Key()), p.sortOf(mt.Elem())
+				for _, ar := range []struct {
+					n string
+					s Sort
+				}{{h, ArrSort(SInt, ArrSort(ks, vs))}, {d, ArrSort(SInt, ArrSort(ks, SBool))}} {
+					locs = append(locs, assignLoc{array: ar.n, sort: ar.s, src: a, ref: func(tr *Translator) T { return App(SInt, "pl_Int", tr.lookupIdent(name).t) }})
+				}
 			default:
 				return nil, false, fmt.Errorf("assigns: parameter %q is not a reference", parts[0])
 			}
